@@ -164,6 +164,18 @@ func runC15(c *core.Ctx) {
 				map[string]interface{}{"xpath": "id"}, map[string]interface{}{"external": "ext2"}}}}
 		}
 	}
+	if r.Chance(1, 2) {
+		// date-time functions without a zone: nothing of the process's own local zone may show (the fresh process runs under another TZ)
+		obj["zz_epoch"] = map[string]interface{}{"custom_func": map[string]interface{}{"name": "epochToDateTimeRFC3339", "args": []interface{}{
+			map[string]interface{}{"const": "1234567890"}, map[string]interface{}{"const": "SECOND"}, map[string]interface{}{"const": ""}}}}
+		obj["zz_epoch2"] = map[string]interface{}{"custom_func": map[string]interface{}{"name": "epochToDateTimeRFC3339", "args": []interface{}{
+			map[string]interface{}{"const": "86399999"}, map[string]interface{}{"const": "MILLISECOND"}}}}
+		obj["zz_dt"] = map[string]interface{}{"custom_func": map[string]interface{}{"name": "dateTimeToRFC3339", "args": []interface{}{
+			map[string]interface{}{"const": "2021-03-14 01:59:59"}, map[string]interface{}{"const": ""}, map[string]interface{}{"const": ""}}}}
+		obj["zz_ep"] = map[string]interface{}{"custom_func": map[string]interface{}{"name": "dateTimeToEpoch", "args": []interface{}{
+			map[string]interface{}{"const": "2021-03-14 01:59:59"}, map[string]interface{}{"const": ""}, map[string]interface{}{"const": "SECOND"}}}}
+		c.Inc("schemas_with_zoneless_datetime_calls")
+	}
 	if r.Chance(1, 3) {
 		// several fields of the same object that fail on the same record (on the records whose number is not one, or on all): which
 		// failure is reported must not vary between loads of the same schema bytes
@@ -279,7 +291,7 @@ func c15Fresh(c *core.Ctx, r *core.Rand, format, schema string, input []byte, ex
 	}
 	self, _ := os.Executable()
 	cmd := exec.Command(self, "xdigest", path)
-	cmd.Env = append(os.Environ(), "GOMAXPROCS="+r.Pick("1", "2", "4", "16"))
+	cmd.Env = append(os.Environ(), "GOMAXPROCS="+r.Pick("1", "2", "4", "16"), "TZ="+r.Pick("Asia/Tokyo", "America/New_York", "UTC", "Australia/Adelaide"))
 	out, err := cmd.CombinedOutput()
 	os.Remove(path)
 	c.Inc("fresh_process_runs")
